@@ -178,7 +178,10 @@ def build(stack):
         r = Response(status=204)
         del r.headers['Content-Type']
         return r
-    routes = [('/textchunks', ep_textchunks), ('/noctype', ep_noctype), ('/nocontent', ep_204),
+    def ep_ctxfrozen():
+        import types as _types
+        return _types.MappingProxyType({'b': 'kb', 'own': 1})     # a read-only mapping as render context
+    routes = [('/ctxfrozen', ep_ctxfrozen, render_any), ('/textchunks', ep_textchunks), ('/noctype', ep_noctype), ('/nocontent', ep_204),
               ('/ctxlist', ep_ctxlist, render_any), ('/ctxstr', ep_ctxstr, render_any),
               ('/resp', ep_resp), ('/ctx', ep_ctx, render), ('/stream', ep_stream), ('/deflated', ep_deflated), ('/redir', ep_redir),
               ('/branch/', ep_resp),
@@ -208,6 +211,7 @@ def request_catalogue():
     for ck in sorted(COOKIE_HDRS):
         out.append((ck, '/resp', 'GET', 'b=kb', b''))
     out.append(('cookie-nonascii-key-404', '/zz/top', 'GET', '', b''))
+    out.append(('ctxfrozen', '/ctxfrozen', 'GET', '', b''))
     out.append(('textchunks', '/textchunks', 'GET', '', b''))
     out.append(('noctype', '/noctype', 'GET', '', b''))
     out.append(('nocontent', '/nocontent', 'GET', '', b''))
